@@ -177,7 +177,11 @@ func C10() int {
 			env := map[string][]string{"e2.log": {"ANONYMONGO_VERSION=2.1.0"}, "e3.log": {"ANONYMONGO_VERSION=v7.0.1-rc1"}, "e4.log": {"ANONYMONGO_VERSION=3.0.0"}}[out]
 			// an earlier, LONGER output of another job at the same path (re-running after the log was trimmed)
 			if out == "e2.log" || out == "p4.log" {
-				os.WriteFile(filepath.Join(dir, out), bytes.Repeat([]byte("{\"stale\":\"line of an earlier run\"}\n"), 40000), 0o644)
+				n := 40000
+				if fi, err := os.Stat(in); err == nil {
+					n += int(fi.Size()) / 20 // longer than anything this input can turn into
+				}
+				os.WriteFile(filepath.Join(dir, out), bytes.Repeat([]byte("{\"stale\":\"line of an earlier run\"}\n"), n), 0o644)
 			}
 			r := s.CLI(sut.Run{Args: args, Dir: dir, Env: env})
 			b, _ := os.ReadFile(filepath.Join(dir, out))
